@@ -2,6 +2,7 @@
 # Development aid: run every registered check of a tier on the current tree and validate the evidence files.
 tier=${1:-quick}
 cd /verif || exit 2
+mkdir -p .build
 rc=0
 for p in C01 C02 C03 C04 C05 C06 C07 C08 C09 C10 C11 C12 C13 C14 C15 C16 C17 C18 C19 C20; do
   ./bin/verifrun -property $p -tier $tier > .build/last-$p.out 2>&1; e=$?
